@@ -5,6 +5,8 @@ pub use self::mapped_page_table::{MappedPageTable, PageTableFrameMapping};
 pub use self::offset_page_table::OffsetPageTable;
 #[cfg(all(feature = "instructions", target_arch = "x86_64"))]
 pub use self::recursive_page_table::{InvalidPageTable, RecursivePageTable};
+#[cfg(all(x86_64_verif, feature = "instructions", target_arch = "x86_64"))]
+pub use self::recursive_page_table::{verif_p1_page, verif_p2_page, verif_p3_page};
 
 use crate::structures::paging::{
     frame_alloc::{FrameAllocator, FrameDeallocator},
